@@ -336,6 +336,13 @@ func loadKnown() map[string]string {
 
 // Finish writes the evidence (or, in a worker, the partial), prints KNOWN-FINDING / VIOLATION lines and exits.
 func (r *Run) Finish() {
+	if p := recover(); p != nil {
+		// a panic of the harness itself is an internal error, never a verdict
+		buf := make([]byte, 16384)
+		n := runtime.Stack(buf, false)
+		fmt.Fprintf(os.Stderr, "INTERNAL: harness panic: %v\n%s\n", p, buf[:n])
+		os.Exit(2)
+	}
 	if r.finished {
 		return
 	}
@@ -354,6 +361,10 @@ func (r *Run) Finish() {
 			os.Exit(2)
 		}
 		os.Exit(0)
+	}
+	if r.evaluations == 0 {
+		fmt.Fprintln(os.Stderr, "INTERNAL: the harness evaluated nothing")
+		os.Exit(2)
 	}
 	known := loadKnown()
 	var sigs []string
